@@ -57,10 +57,11 @@ PROPS = {
     },
     "C06": {
         "level": "exploration",
-        "steps": [("hv", "C06", {})],
+        "steps": [("hv", "C06", {}), ("py", "lsx", "run_c06")],
         "rule": "exhaustive pass: every spelling of an independent expansion of dictionary.dict + affixes.json (read from the current tree, reconciled with the implementation's "
                 "word set) x 4 dialects, alone, plus Capitalised/UPPER forms of lower-case entries and sentence frames (sampled); dialect-tagged words under the other dialects; "
-                "non-words (random letter strings, edit-distance-1 mutants) must be flagged at their exact span; every suggestion must be a listed word of the active dialect; "
+                "non-words (random letter strings, edit-distance-1 mutants) must be flagged at their exact span; every suggestion must be a listed word of the active dialect; harper-ls sessions with user / file dictionary files on disk (LF, CRLF, no final newline, blank lines; novel words and "
+                "lower-case forms of capitalised-only curated entries): listed words never published as spelling errors, unlisted strings published exactly at their characters; "
                 "distinct = hash(document, dialect)",
         "assumptions": ["dialect tags are read from the implementation's metadata (the statement does not say how they arise)", "words that lex into several tokens are skipped (counted)"],
         "exhaustive_part": "every spelling the reference expansion derives (~132 k) x 4 dialects, as a one-word document",
@@ -123,11 +124,12 @@ PROPS = {
     },
     "C14": {
         "level": "exploration",
-        "steps": [("hv", "C14", {"_scale": 6.0}), ("py", "c14ls", "run")],
+        "steps": [("hv", "C14", {"_scale": 6.0}), ("hv", "wasmignore", {}), ("py", "c14ls", "run")],
         "rule": "documents built from a pool of flagged clauses with twins (same flagged word, different neighbours), plain and Markdown; random subsets ignored through IgnoredLints; "
                 "checks: ignored lint gone, every lint observably different from all ignored ones survives, export/import equivalence, and edits >= 8 characters away (prepend / append "
                 "paragraph, quoted paragraph, inserted words) keep it ignored; harper-ls histories: a diagnostic is ignored through the HarperIgnoreLint command the server itself offers "
-                "(gone, every diagnostic with another message or flagged text still published, nothing new), then clean paragraphs are appended / prepended; non-trivial = document with >= 2 lints; distinct = hash(document, chosen subset)",
+                "(gone, every diagnostic with another message or flagged text still published, nothing new), then clean paragraphs (or, in source files, code with a new identifier) are appended / prepended; harper_wasm::Linter::ignore_lint with imported user words next to the flagged text, "
+                "and export -> import into a second linter; non-trivial = document with >= 2 lints; distinct = hash(document, chosen subset)",
         "assumptions": ["identity of a lint = kind, message, suggestions, flagged text, tokens within two characters before/after (from the statement)"],
     },
     "C15": {
